@@ -43,7 +43,7 @@ type decCase struct {
 
 var mutNames = []string{
 	"valid", "coord+p", "coord=p", "coord=2^256-1", "bitflip", "all-zero", "truncated", "trailing-bytes",
-	"coord=0", "negated", "coord=p-1", "coord=random", "bad-prefix", "zeros-with-coord=1", "x=0",
+	"coord=0", "negated", "coord=p-1", "coord=random", "bad-prefix", "zeros-with-coord=1", "x=0", "coords-sparse-in-montgomery-form",
 }
 
 const (
@@ -62,6 +62,7 @@ const (
 	mPrefix
 	mZeros1
 	mXZero
+	mMont
 )
 
 func encLen(g int, comp bool) (length, ncoord, off int) {
@@ -87,7 +88,7 @@ func genDec(g int) func(t *rapid.T) decCase {
 		}
 		L, _, _ := encLen(g, c.Comp)
 		c.Src = rapid.SampledFrom([]int{0, 0, 0, 0, 0, 0, 1, 1, 1, 2}).Draw(t, "src")
-		c.Mut = rapid.SampledFrom([]int{mValid, mValid, mPlusP, mPlusP, mPlusP, mEqP, mMax, mFlip, mFlip, mZero, mTrunc, mTrail, mCoord0, mNeg, mPm1, mRand, mPrefix, mZeros1, mXZero}).Draw(t, "mut")
+		c.Mut = rapid.SampledFrom([]int{mValid, mValid, mPlusP, mPlusP, mPlusP, mEqP, mMax, mFlip, mFlip, mZero, mTrunc, mTrail, mCoord0, mNeg, mPm1, mRand, mPrefix, mZeros1, mXZero, mMont, mMont}).Draw(t, "mut")
 		c.Coord = rapid.IntRange(0, 11).Draw(t, "coord")
 		c.Bit = rapid.IntRange(0, 8*L-1).Draw(t, "bit")
 		c.Len = rapid.IntRange(1, 40).Draw(t, "len")
@@ -234,6 +235,61 @@ func baseEncoding(c decCase, r *h.Rec, wantCoord int) (enc []byte, note string, 
 	}
 }
 
+// montInv returns the canonical field element whose Montgomery image (x*2^256
+// mod p, the library's internal form on every backend) is m. m < p.
+func montInv(m *big.Int) *big.Int {
+	rInv := new(big.Int).ModInverse(two56, bnP)
+	return fp.mul(new(big.Int).Mod(m, bnP), rInv)
+}
+
+const nMontPatterns = 8
+
+// montSparse builds a 256-bit value below 2^255 that is non-zero only in a
+// chosen part of each 64-bit limb.
+func montSparse(pat int, seed uint64) *big.Int {
+	f := gen.Fill(seed, 40)
+	m := make([]byte, 32) // big endian; byte of significance s = 31-j sits in limb s/8 at lane s%8
+	lane := int(f[32] % 8)
+	limb := int(f[33] % 4)
+	set := func(keep func(s int) bool) {
+		for j := range m {
+			if s := 31 - j; keep(s) {
+				m[j] = f[j] | 1
+			}
+		}
+	}
+	switch pat {
+	case 0: // a single bit, the same position in every limb
+		b := uint(f[34] % 64)
+		for l := 0; l < 4; l++ {
+			m[31-(l*8+int(b/8))] = 1 << (b % 8)
+		}
+	case 1: // a single bit in one limb
+		b := uint(f[34] % 64)
+		m[31-(limb*8+int(b/8))] = 1 << (b % 8)
+	case 2: // the odd byte lanes of every limb
+		set(func(s int) bool { return s%8%2 == 1 })
+	case 3: // the even byte lanes
+		set(func(s int) bool { return s%8%2 == 0 })
+	case 4: // one byte lane in every limb
+		set(func(s int) bool { return s%8 == lane })
+	case 5: // one limb
+		set(func(s int) bool { return s/8 == limb })
+	case 6: // the upper / lower half of every limb
+		set(func(s int) bool { return (s%8 >= 4) == (lane >= 4) })
+	default: // Montgomery "one" (2^256 mod p) with one byte lane disturbed
+		one := new(big.Int).Mod(two56, bnP).FillBytes(make([]byte, 32))
+		copy(m, one)
+		for j := range m {
+			if s := 31 - j; s%8 == lane {
+				m[j] ^= f[j] | 1
+			}
+		}
+	}
+	m[0] &= 0x7f // stay below p
+	return new(big.Int).SetBytes(m)
+}
+
 func setCoord(enc []byte, off, i int, v *big.Int) {
 	copy(enc[off+32*i:off+32*i+32], be32(v))
 }
@@ -319,6 +375,20 @@ func mutate(c decCase, r *h.Rec, enc []byte) []byte {
 			}
 			for i := 0; i < nx; i++ {
 				setCoord(out, off, i, big.NewInt(0))
+			}
+		}
+	case mMont:
+		// Every coordinate is replaced by a canonical value whose INTERNAL
+		// (Montgomery, R = 2^256) image is sparse: a single bit, a single byte, one
+		// byte lane of the 64-bit limbs, one limb, or "one" plus such a pattern.
+		// The library decides "is this the infinity encoding", "is z one", "is
+		// this on the curve" by word-wise comparisons of that internal image, so
+		// a comparison that ignores some bit positions shows up exactly here.
+		if full {
+			pat := c.Bit % nMontPatterns
+			r.Label("mont-pattern-%d", pat)
+			for i := 0; i < ncoord; i++ {
+				setCoord(out, off, i, montInv(montSparse(pat, gen.Mix(c.Seed, uint64(i)))))
 			}
 		}
 	case mZeros1:
@@ -874,6 +944,27 @@ func TestC09_DecodeFixed(t *testing.T) {
 			raw(2, true, cat([]byte{pre}, z(64), []byte{9}))
 		}
 		raw(2, true, z(64))
+		// coordinates whose Montgomery image is a single bit: position b of limb 0,
+		// and position b of every limb - for every b. None of these is (0,0) and
+		// none is on the curve; a zero test that skips a bit position accepts one
+		// of them as the infinity encoding.
+		for b := 0; b < 64; b++ {
+			one0 := new(big.Int).Lsh(big1, uint(b))
+			all := new(big.Int)
+			for l := 0; l < 4; l++ {
+				all.SetBit(all, 64*l+b, 1)
+			}
+			all.SetBit(all, 255, 0)
+			if all.Sign() == 0 {
+				all.Set(one0)
+			}
+			c0, ca := be32(montInv(one0)), be32(montInv(all))
+			raw(1, false, cat(c0, c0))
+			raw(1, false, cat(ca, ca))
+			raw(2, false, cat(c0, c0, c0, c0))
+			raw(2, false, cat(ca, ca, ca, ca))
+			raw(2, false, cat(z(32), c0, z(32), ca))
+		}
 		// GT
 		raw(12, false, z(384))
 		raw(12, false, z(383))
